@@ -224,11 +224,11 @@ func (l *Gpos4_1) encode() []byte {
 
 	res = append(res,
 		0, 1, // posFormat
-		byte(markCoverageOffset>>8), byte(markCoverageOffset),
-		byte(baseCoverageOffset>>8), byte(baseCoverageOffset),
+		byte(offs16(int(markCoverageOffset))>>8), byte(markCoverageOffset),
+		byte(offs16(int(baseCoverageOffset))>>8), byte(baseCoverageOffset),
 		byte(markClassCount>>8), byte(markClassCount),
-		byte(markArrayOffset>>8), byte(markArrayOffset),
-		byte(baseArrayOffset>>8), byte(baseArrayOffset),
+		byte(offs16(int(markArrayOffset))>>8), byte(markArrayOffset),
+		byte(offs16(int(baseArrayOffset))>>8), byte(baseArrayOffset),
 	)
 
 	res = append(res, l.MarkCov.Encode()...)
@@ -241,7 +241,7 @@ func (l *Gpos4_1) encode() []byte {
 	for _, rec := range l.MarkArray {
 		res = append(res,
 			byte(rec.Class>>8), byte(rec.Class),
-			byte(offs>>8), byte(offs),
+			byte(offs16(int(offs))>>8), byte(offs),
 		)
 		offs += 6
 	}
@@ -260,7 +260,7 @@ func (l *Gpos4_1) encode() []byte {
 				continue
 			}
 			res = append(res,
-				byte(offs>>8), byte(offs),
+				byte(offs16(int(offs))>>8), byte(offs),
 			)
 			offs += 6
 		}
